@@ -443,9 +443,15 @@ class Reference(object):
             self.digests.append(d)
             if len(self.pcs) > TICK_CAP:
                 raise Discard("reference exceeds the tick cap")
+            wrote = False
             for addr, data in host_writes.get(d, ()):
                 jitter.vm.set_mem(addr, data)
                 self.applied_writes += 1
+                wrote = True
+            if wrote:
+                # the state right after the host writes belongs to the same tick (a control point
+                # of the run under test may observe it before the next instruction retires)
+                self.index.setdefault(digest(jitter, pcregs), len(self.pcs) - 1)
             return True
         j.exec_cb = cb
         done = []
@@ -666,9 +672,11 @@ class TestRun(object):
     # -- callbacks ---------------------------------------------------------------
     def _make_cb(self, k):
         def cb(jitter):
+            idx = len(self.events)
             self.events.append((None, self.cp + 1, "hit", jitter.pc, k, None))
+            my_cp = self.cp + 1
             stop = self.control_point("bp%d" % k, jitter)
-            self.events[-1] = (self.cur_tick, self.cp, "hit", jitter.pc, k, stop)
+            self.events[idx] = (self.cur_tick, my_cp, "hit", jitter.pc, k, stop)
             self.probe("bp_hit")
             if stop:
                 self.probe("bp_callback_stops_run")
@@ -862,6 +870,7 @@ def expected_breakpoint_hits(ref, events, end_addr):
             hit_i += 1
         before = dict((a, list(v)) for a, v in active.items())
         touched = False
+        seen_here = set(before.get(pc, []))
         for ev in acts_by_tick.get(t, ()):
             kind, addr, cb = ev[2], ev[3], ev[4]
             if kind == "bp_add":
@@ -878,15 +887,16 @@ def expected_breakpoint_hits(ref, events, end_addr):
                         active[a].remove(cb)
                         if not active[a]:
                             del active[a]
-            if addr == pc or (kind == "bp_rm_cb" and cb in before.get(pc, [])):
+            if addr == pc or (kind == "bp_rm_cb" and cb in seen_here):
                 touched = True
+            seen_here |= set(active.get(pc, []))
         got = [h[4] for h in here]
         for h in here:
             if h[3] != pc:
                 return False, "extra-hit", "callback %d invoked with pc %#x at tick %d where the guest is at %#x" % (h[4], h[3], t, pc)
         if touched:
             # registered/removed while standing on the address: either outcome accepted for this arrival
-            allowed = set(before.get(pc, [])) | set(active.get(pc, []))
+            allowed = seen_here
             if any(g not in allowed for g in got):
                 return False, "extra-hit", "tick %d at %#x: callbacks %s invoked, registered there: %s" % (t, pc, got, sorted(allowed))
             continue
